@@ -62,7 +62,8 @@ Section OneKey.
     fold_left ak (applied _ (reps _ s r1)) None = fold_left ak (applied _ (reps _ s r2)) None.
   Proof.
     intros Hr Hp.
-    refine (convergence _ _ _ m_oid author ak rk None dk dk_mono reg_bounded I good_step _ _ rk_iff s r1 r2 Hr Hp).
+    refine (convergence _ _ _ m_oid author ak rk None dk dk_mono reg_bounded I good_step _ _ (fun _ _ => True) (fun _ _ _ _ => I) _ s r1 r2 Hr Hp).
+    3: { intros l o Hok. rewrite (rk_iff l o Hok). tauto. }
     - intros r a b _ _ Ha Hb. apply reg_ready_mono; assumption.
     - intros r a b Hg Hne Ha Hb. apply reg_comm; assumption.
   Qed.
